@@ -902,14 +902,7 @@ func (vc *VC) builtin(st *State, v *ssa.Call, b *ssa.Builtin, cc *ssa.CallCommon
 }
 
 func (vc *VC) unsafeStrings() {
-	if vc.declared["str_data"] {
-		return
-	}
-	vc.declareFun("str_data", []string{"Str"}, "Int")
-	vc.declareFun("str_of", []string{"Int", "Int"}, "Str")
-	vc.preamble = append(vc.preamble,
-		"(assert (forall ((s Str)) (! (= (str_of (str_data s) (slen s)) s) :pattern ((str_data s)))))",
-		"(assert (forall ((s Str)) (! (>= (str_data s) 0) :pattern ((str_data s)))))")
+	vc.P.prelude.use(vc, "str_of")
 	vc.note("unsafe.StringData/unsafe.String are modelled by str_of(str_data(s), len(s)) == s")
 }
 
